@@ -1,0 +1,29 @@
+//! Verification hooks. Only compiled with `--cfg asefile_verif`; never part of
+//! a normal build. A thread-local event sink records one JSON line per parser
+//! step (header, frame header, chunk applied) so that an external checker can
+//! validate the sequence of parser states against a specification.
+
+use std::cell::RefCell;
+
+thread_local! {
+    static SINK: RefCell<Option<Vec<String>>> = const { RefCell::new(None) };
+}
+
+/// Start recording events on the current thread (drops earlier events).
+pub fn start() {
+    SINK.with(|s| *s.borrow_mut() = Some(Vec::new()));
+}
+
+/// Stop recording and return the events recorded since [start].
+pub fn take() -> Vec<String> {
+    SINK.with(|s| s.borrow_mut().take().unwrap_or_default())
+}
+
+/// Record one event if recording is active on this thread.
+pub(crate) fn emit<F: FnOnce() -> String>(f: F) {
+    SINK.with(|s| {
+        if let Some(v) = s.borrow_mut().as_mut() {
+            v.push(f());
+        }
+    });
+}
